@@ -62,14 +62,16 @@ BUDGET = {'quick': 600, 'thorough': 3000}
 EXHAUSTIVE = {'quick': False, 'thorough': True}
 ASSUMPTIONS = ['numpy float64 arithmetic',
                'hexagon orientation as documented in dassh/pin.py',
-               'ring counts 2..20 (thorough) / 2..10 (quick), 1..3 ducts']
+               'ring counts 2..20 (both tiers; quick with fewer draws above 10 rings), 1..3 ducts']
 TOL_XY = 1e-9       # x flat-to-flat, absolute position tolerance
 TOL_L = 1e-9        # relative, centroid distances
 TOL_A = 1e-11       # relative to the tiled area
 TOL_Q = 1e-12       # pin power fractions
 
 DRAWS = {'quick': 12, 'thorough': 40}
-RINGS = {'quick': range(2, 11), 'thorough': range(2, 21)}
+RINGS = {'quick': range(2, 21), 'thorough': range(2, 21)}
+# quick: fewer draws for the large bundles (every ring count is still built)
+DRAWS_BIG = {'quick': 2, 'thorough': 40}
 TYPE_NAMES = ['interior', 'edge', 'corner', 'duct-edge', 'duct-corner',
               'bypass-edge', 'bypass-corner']
 
@@ -79,7 +81,8 @@ def cases(tier, seed):
     for nr in RINGS[tier]:
         for nd in (1, 2, 3):
             for se2 in (False, True):
-                for k in range(DRAWS[tier]):
+                for k in range(DRAWS[tier] if nr <= 10
+                               else DRAWS_BIG[tier]):
                     out.append({'name': 'r%02d-d%d-se2%d-%d'
                                 % (nr, nd, int(se2), k),
                                 'nr': nr, 'nd': nd, 'se2': se2,
